@@ -1,7 +1,7 @@
 (* Correspondence cases over the codec universe (C01, C02, C03, C07, C08, C11,
    C12, C14, C18, C19, C09): what the implementation did on a case, compared
    with what the model computes. *)
-Require Import Scale.Bytes Scale.Hex Scale.Eres Scale.Prog Scale.CompactImpl Scale.CompactSpec Scale.Codec.
+Require Import Scale.Bytes Scale.Hex Scale.Eres Scale.Prog Scale.Real Scale.CompactImpl Scale.CompactSpec Scale.Codec.
 
 Definition vbytes (s : list byte) : val := VSeq (map (fun b => VN (Byte.to_N b)) s).
 Definition vwords (B : N) (s : list byte) : val := VSeq (map VN (words B s)).
@@ -134,7 +134,8 @@ Inductive gcase :=
 | GEnc (t : ty) (v : val) (out : list byte)
 | GDec (t : ty) (known : bool) (inp : list byte) (r : dres)
 | GRun (t : ty) (known : bool) (ls : list layer) (inp : list byte) (r : rres)
-| GAlloc (t : ty) (known : bool) (inp : list byte) (al : list N).   (* sizes announced to on_before_alloc_mem, in order *)
+| GAlloc (t : ty) (known : bool) (inp : list byte) (al : list N)   (* sizes announced to on_before_alloc_mem, in order *)
+| GPeak (t : ty) (known : bool) (inp : list byte) (peak : N).     (* measured peak of live heap bytes during the decode *)
 
 Definition g_check (c : gcase) : bool :=
   match c with
@@ -146,6 +147,7 @@ Definition g_check (c : gcase) : bool :=
   | GDec t known inp r => dres_eqb (model_decode t known inp) r
   | GRun t known ls inp r => rres_eqb ls (model_run t known ls inp) r
   | GAlloc t known inp al => ns_eqb (allocs (snd (runt (dec t) known inp))) al
+  | GPeak t known inp peak => peak <=? 2 * real_sum (snd (runt (dec t) known inp)) + 4096
   end.
 
 Inductive gmodel := MEnc (r : eres (list byte)) | MDec (r : dres) | MRun (r : rres) | MAlloc (l : list N).
@@ -155,4 +157,5 @@ Definition g_model (c : gcase) : gmodel :=
   | GDec t known inp _ => MDec (model_decode t known inp)
   | GRun t known ls inp _ => MRun (model_run t known ls inp)
   | GAlloc t known inp _ => MAlloc (allocs (snd (runt (dec t) known inp)))
+  | GPeak t known inp _ => MAlloc [real_sum (snd (runt (dec t) known inp))]
   end.
